@@ -263,6 +263,14 @@ def _run_case(case):
                     ev["same"] = (data == keep)
                     c = spec.sampling_violation_counter
                     ev["viol"] = c if isinstance(c, int) else -1
+                elif a == "config":
+                    # re-configuration of a parsed object: default unit and / or sampling period (units are resolved at evaluation)
+                    spec = specs[oi]
+                    if ev.get("unit"):
+                        spec.unit = ev["unit"]
+                    if ev.get("set_period"):
+                        sp = ev["set_period"]
+                        spec.set_sampling_period(sp[0], sp[1], sp[2])
                 elif a == "explain":
                     spec = specs[oi]
                     ev["rep"] = {v: [] for v in o["vars"]}
